@@ -414,7 +414,10 @@ func WriteShards(dir string, cases []Case, shardSize int) error {
 		w := bufio.NewWriter(f)
 		fmt.Fprintf(w, "From V Require Import Base CorrBase Corr_C14.\nOpen Scope N_scope.\n")
 		fmt.Fprintf(w, "(* shard %d: cases %d..%d *)\n", k, start, end-1)
-		fmt.Fprintf(w, "Definition base_index : nat := %d%%nat.\nDefinition sn0 : str := nil.\n", start)
+		// Global case indices are kept in N: a unary nat above ~30000 overflows coqc's stack when the
+		// result is read back. `nat` is a local alias so that the printed type still reads
+		// `list (nat * N)`, which is what bin/check.py parses.
+		fmt.Fprintf(w, "Definition nat := N.\nDefinition base_index : nat := %d.\nDefinition sn0 : str := nil.\n", start)
 		used := map[int]bool{}
 		for i := start; i < end; i++ {
 			for _, id := range cases[i].Used {
@@ -437,7 +440,7 @@ func WriteShards(dir string, cases []Case, shardSize int) error {
 			fmt.Fprintf(w, " case_cons c%d (", i)
 		}
 		w.WriteString("case_nil" + strings.Repeat(")", end-start) + ".\n")
-		fmt.Fprintf(w, "Definition R := Eval vm_compute in run_judge base_index judge cases.\nPrint R.\n")
+		fmt.Fprintf(w, "Definition R : list (nat * N) := Eval vm_compute in map (fun p => (N.of_nat (fst p) + base_index, snd p)) (run_judge 0%%nat judge cases).\nPrint R.\n")
 		fmt.Fprintf(w, "Definition KL := Eval vm_compute in map classify cases.\nPrint KL.\n")
 		w.Flush()
 		f.Close()
